@@ -34,12 +34,12 @@ func TestMain(m *testing.M) {
 
 // switch modules: resource "sw" alternates between two block-everything lists, "kb" keeps one constant block-all rule.
 type switcher struct {
-	name    string
-	opts    func() []sentinel.EntryOption
-	btype   base.BlockType
-	loadAll func(swID string, others int) error   // whole set: sw rule with the given id + kb rule + rules on other resources
-	loadSw  func(swID string) error               // per-resource load of sw only
-	ruleID  func(r base.SentinelRule) string
+	name          string
+	opts          func() []sentinel.EntryOption
+	btype         base.BlockType
+	loadAll       func(swID string, others int) error // whole set: sw rule with the given id + kb rule + rules on other resources
+	loadSwVariant func(swID string, variant int) error
+	ruleID        func(r base.SentinelRule) string
 }
 
 func switchers() []switcher {
@@ -47,15 +47,15 @@ func switchers() []switcher {
 		{name: "flow", btype: base.BlockTypeFlow,
 			opts: func() []sentinel.EntryOption { return nil },
 			loadAll: func(id string, others int) error {
-				rs := []*flow.Rule{{ID: id, Resource: "sw", Threshold: 0}, {ID: "kb", Resource: "kb", Threshold: 0}}
+				rs := append(flowSw(id, others), &flow.Rule{ID: "kb", Resource: "kb", Threshold: 0})
 				for i := 0; i < others; i++ {
 					rs = append(rs, &flow.Rule{ID: fmt.Sprint("o", i), Resource: fmt.Sprint("t", i%3), Threshold: float64(1 + i)})
 				}
 				_, err := flow.LoadRules(rs)
 				return err
 			},
-			loadSw: func(id string) error {
-				_, err := flow.LoadRulesOfResource("sw", []*flow.Rule{{ID: id, Resource: "sw", Threshold: 0}})
+			loadSwVariant: func(id string, v int) error {
+				_, err := flow.LoadRulesOfResource("sw", flowSw(id, v))
 				return err
 			},
 			ruleID: func(r base.SentinelRule) string {
@@ -67,15 +67,15 @@ func switchers() []switcher {
 		{name: "isolation", btype: base.BlockTypeIsolation,
 			opts: func() []sentinel.EntryOption { return []sentinel.EntryOption{sentinel.WithBatchCount(2)} }, // 0+2 > 1: always rejected
 			loadAll: func(id string, others int) error {
-				rs := []*isolation.Rule{{ID: id, Resource: "sw", Threshold: 1}, {ID: "kb", Resource: "kb", Threshold: 1}}
+				rs := append(isoSw(id, others), &isolation.Rule{ID: "kb", Resource: "kb", Threshold: 1})
 				for i := 0; i < others; i++ {
 					rs = append(rs, &isolation.Rule{ID: fmt.Sprint("o", i), Resource: fmt.Sprint("t", i%3), Threshold: uint32(2 + i)})
 				}
 				_, err := isolation.LoadRules(rs)
 				return err
 			},
-			loadSw: func(id string) error {
-				_, err := isolation.LoadRulesOfResource("sw", []*isolation.Rule{{ID: id, Resource: "sw", Threshold: 1}})
+			loadSwVariant: func(id string, v int) error {
+				_, err := isolation.LoadRulesOfResource("sw", isoSw(id, v))
 				return err
 			},
 			ruleID: func(r base.SentinelRule) string {
@@ -87,16 +87,15 @@ func switchers() []switcher {
 		{name: "hotspot", btype: base.BlockTypeHotSpotParamFlow,
 			opts: func() []sentinel.EntryOption { return []sentinel.EntryOption{sentinel.WithArgs("v")} },
 			loadAll: func(id string, others int) error {
-				rs := []*hotspot.Rule{{ID: id, Resource: "sw", MetricType: hotspot.QPS, ControlBehavior: hotspot.Reject, ParamIndex: 0, Threshold: 0, DurationInSec: 1, SpecificItems: map[interface{}]int64{}},
-					{ID: "kb", Resource: "kb", MetricType: hotspot.QPS, ControlBehavior: hotspot.Reject, ParamIndex: 0, Threshold: 0, DurationInSec: 1, SpecificItems: map[interface{}]int64{}}}
+				rs := append(hotSw(id, others), hotBlock("kb", "kb"))
 				for i := 0; i < others; i++ {
 					rs = append(rs, &hotspot.Rule{ID: fmt.Sprint("o", i), Resource: fmt.Sprint("t", i%3), MetricType: hotspot.Concurrency, ParamIndex: 0, Threshold: int64(1 + i), SpecificItems: map[interface{}]int64{}})
 				}
 				_, err := hotspot.LoadRules(rs)
 				return err
 			},
-			loadSw: func(id string) error {
-				_, err := hotspot.LoadRulesOfResource("sw", []*hotspot.Rule{{ID: id, Resource: "sw", MetricType: hotspot.QPS, ControlBehavior: hotspot.Reject, ParamIndex: 0, Threshold: 0, DurationInSec: 1, SpecificItems: map[interface{}]int64{}}})
+			loadSwVariant: func(id string, v int) error {
+				_, err := hotspot.LoadRulesOfResource("sw", hotSw(id, v))
 				return err
 			},
 			ruleID: func(r base.SentinelRule) string {
@@ -109,6 +108,61 @@ func switchers() []switcher {
 }
 
 var outlierN int64
+
+// The switched resource always carries exactly one block-everything rule (id "1" or "2") among inert
+// rules whose number, position and statistic parameters vary from load to load, so that rule re-use,
+// statistic re-use and in-place list edits of the managers are exercised while requests walk the list.
+func flowSw(id string, variant int) []*flow.Rule {
+	block := &flow.Rule{ID: id, Resource: "sw", Threshold: 0}
+	x := &flow.Rule{ID: "x", Resource: "sw", Threshold: 1e9}
+	y := &flow.Rule{ID: "y", Resource: "sw", Threshold: 1e9, StatIntervalInMs: 2000}
+	z := &flow.Rule{ID: "z", Resource: "sw", Threshold: 2e9, StatIntervalInMs: 3000}
+	switch variant % 5 {
+	case 0:
+		return []*flow.Rule{block}
+	case 1:
+		return []*flow.Rule{x, block, y}
+	case 2:
+		return []*flow.Rule{block, x, z}
+	case 3:
+		return []*flow.Rule{y, x, block}
+	}
+	return []*flow.Rule{z, block}
+}
+
+func isoSw(id string, variant int) []*isolation.Rule {
+	block := &isolation.Rule{ID: id, Resource: "sw", Threshold: 1}
+	x := &isolation.Rule{ID: "x", Resource: "sw", Threshold: 1 << 30}
+	y := &isolation.Rule{ID: "y", Resource: "sw", Threshold: 1<<30 + 1}
+	switch variant % 4 {
+	case 0:
+		return []*isolation.Rule{block}
+	case 1:
+		return []*isolation.Rule{x, block, y}
+	case 2:
+		return []*isolation.Rule{block, y}
+	}
+	return []*isolation.Rule{y, x, block}
+}
+
+func hotBlock(id, res string) *hotspot.Rule {
+	return &hotspot.Rule{ID: id, Resource: res, MetricType: hotspot.QPS, ControlBehavior: hotspot.Reject, ParamIndex: 0, Threshold: 0, DurationInSec: 1, SpecificItems: map[interface{}]int64{}}
+}
+
+func hotSw(id string, variant int) []*hotspot.Rule {
+	block := hotBlock(id, "sw")
+	x := &hotspot.Rule{ID: "x", Resource: "sw", MetricType: hotspot.QPS, ControlBehavior: hotspot.Reject, ParamIndex: 0, Threshold: 1e9, DurationInSec: 1, SpecificItems: map[interface{}]int64{}}
+	y := &hotspot.Rule{ID: "y", Resource: "sw", MetricType: hotspot.Concurrency, ParamIndex: 0, Threshold: 1e9, SpecificItems: map[interface{}]int64{}}
+	switch variant % 4 {
+	case 0:
+		return []*hotspot.Rule{block}
+	case 1:
+		return []*hotspot.Rule{x, block, y}
+	case 2:
+		return []*hotspot.Rule{block, y, x}
+	}
+	return []*hotspot.Rule{y, x, block}
+}
 
 func TestRaceAndAtomicSwitch(t *testing.T) {
 	hx.Check(t, hx.N{Quick: 60, Thorough: 300}, func(t *rapid.T, c *hx.Case) {
@@ -223,10 +277,10 @@ func TestRaceAndAtomicSwitch(t *testing.T) {
 					before := atomic.LoadInt64(&inFlight)
 					var err error
 					if g == 0 {
-						if i%2 == 0 {
-							err = sw.loadAll(id, i%4)
+						if i%3 == 0 {
+							err = sw.loadAll(id, i%7)
 						} else {
-							err = sw.loadSw(id)
+							err = sw.loadSwVariant(id, i)
 						}
 						atomic.AddInt64(&swaps, 1)
 						if before > 0 || atomic.LoadInt64(&inFlight) > 0 {
